@@ -762,6 +762,11 @@ def decode(matrix, correct=False):
     n = len(matrix)
     v = version_of_size(n)
     res = dict(version=v, size=n)
+    if any(len(r) != n for r in matrix):
+        raise SymbolError('matrix is not square')
+    bad = [(r, c, matrix[r][c]) for r in range(n) for c in range(n) if matrix[r][c] not in (0, 1)]
+    if bad:
+        raise SymbolError('%d modules are neither dark nor light, e.g. module (%d,%d) = %r' % ((len(bad),) + bad[0]))
     res['structure_errors'] = check_structure(matrix, v)
     words, fm = read_format(matrix, v)
     res['format_words'] = words
